@@ -253,7 +253,7 @@ func runSched(t *testing.T, prop string, kinds []string) {
 	}
 	rapid.Check(t, func(rt *rapid.T) {
 		p := &SchedProg{Kind: rapid.SampledFrom(kinds).Draw(rt, "kind"), Max: rapid.IntRange(2, 3).Draw(rt, "max"), NPick: rapid.IntRange(2, 3).Draw(rt, "npick"),
-			UdCalls: rapid.IntRange(1, 2).Draw(rt, "udcalls"), Extra: rapid.IntRange(0, 59).Draw(rt, "extra"),
+			UdCalls: rapid.IntRange(1, 2).Draw(rt, "udcalls"), Extra: rapid.IntRange(0, 95).Draw(rt, "extra"),
 			Mode: rapid.SampledFrom([]string{"pct", "pct", "pct", "random"}).Draw(rt, "mode")}
 		if p.Mode == "pct" {
 			p.Prio = rapid.SliceOfN(rapid.IntRange(0, 7), 5, 5).Draw(rt, "priorities")
